@@ -26,6 +26,9 @@ class GroupWorld(ClientWorld):
             log = self.cluster.logs[(t, int(p))]
             for i in range(n):
                 log.append_plain(b"k%d" % i, ("%s-%s-%d" % (t, p, i)).encode(), timestamp=7)
+        for tp, off in sorted(cfg.get("stored", {}).items()):
+            t, p = tp.split("/")
+            self.cluster.offsets[(GROUP, t, int(p))] = (off, "")  # committed by an earlier incarnation of the group
         self.cluster.group_defaults[GROUP] = dict(cfg.get("group", {}))
         bo = cfg.get("backoffs", {})
         self.backoffs = {"initial": bo.get("initial", 1000), "retry": bo.get("retry", 100),
@@ -82,6 +85,7 @@ class GroupWorld(ClientWorld):
                 self.viol("stop", "processor-invoked-after-stop-completed", "processor invoked after stop() fired")
         if self.cfg.get("proc_raises") is not None and n == self.cfg["proc_raises"]:
             self.nonkafka_raised = True
+            self.nonkafka_at = self.clock.seconds()
             raise ValueError("application bug in processor (non-Kafka error)")
         if self.mode == "sync":
             return None
@@ -96,12 +100,19 @@ class GroupWorld(ClientWorld):
                 ev.append(("proc:ok", Z))
             elif self.menu.get("proc_early"):
                 ev.append(("proc:ok", S))
+            if self.menu.get("proc_fail") and not self.nonkafka_raised:
+                ev.append(("proc:raise", F))  # the application's processing fails with a non-Kafka error
         return ev
 
     def do_extra(self, label):
         if label == "proc:ok":
             d = self.proc_pending.pop(0)
             d.callback(None)
+        elif label == "proc:raise":
+            d = self.proc_pending.pop(0)
+            self.nonkafka_raised = True
+            self.nonkafka_at = self.clock.seconds()
+            d.errback(ValueError("application bug in processor (non-Kafka error, asynchronous)"))
         else:
             raise ValueError(label)
 
@@ -184,6 +195,9 @@ class GroupWorld(ClientWorld):
     def quiescent(self):
         if self.proc_pending:
             return False
+        if self.nonkafka_raised and self.start_rec is not None and not self.start_rec[0] and \
+                self.clock.seconds() < getattr(self, "nonkafka_at", 0.0) + 30.0:
+            return False  # the error has to travel to start()'s Deferred (the member leaves the group first)
         if self.stop_rec is not None:
             return bool(self.stop_rec[1])
         if self.start_rec is not None and self.start_rec[0]:
